@@ -9,7 +9,7 @@
 (***************************************************************************)
 EXTENDS LiskBFT, Json
 
-CONSTANT TraceFile
+CONSTANT TraceFile, ObsBlocking
 TraceLog == ndJsonDeserialize(TraceFile)
 
 VARIABLES l, votes, rr
@@ -39,6 +39,11 @@ ProbeOK(v, o) ==
 Matches(v, o) == Project(v) = ObsOf(o) /\ ProbeOK(v, o)
 
 Explain(v, o) == PrintT(<<"MISMATCH", l, ToJson(Project(v))>>)
+\* ObsBlocking (default): the first deviation of the state ends the validation (everything after it would be noise).
+\* C07 validates the contradiction probes and lets the monitor go on with the MODEL's state past deviations of the observed
+\* state (the same headers were accepted on both sides, so the answers stay comparable); a header accepted by one side
+\* only still ends the validation.
+Blk(p) == IF ObsBlocking THEN ~p ELSE p
 
 Ev == TraceLog[l]
 
@@ -50,7 +55,7 @@ TReset ==
   /\ Ev.ev = "Init"
   /\ votes' = GenesisVotes(Ev.h0, Ev.win)
   /\ rr' = [on |-> Ev.rr = 1, q |-> Ev.q, first |-> Ev.h0 + 1]
-  /\ IF Matches(votes', Ev.obs) THEN TRUE ELSE ~Explain(votes', Ev.obs)
+  /\ IF Matches(votes', Ev.obs) THEN TRUE ELSE Blk(Explain(votes', Ev.obs))
 
 TSetParams ==
   /\ Ev.ev = "SetParams"
@@ -59,13 +64,13 @@ TSetParams ==
          v1 == IF valid THEN SetGenKeys(SetParams(votes, Ev.pcT, Ev.certT, w), Ev.gens) ELSE votes
      IN /\ votes' = v1
         /\ IF (Ev.err = 1) = ~valid THEN TRUE ELSE ~PrintT(<<"MISMATCH-ERR", l, valid>>)
-        /\ IF Matches(v1, Ev.obs) THEN TRUE ELSE ~Explain(v1, Ev.obs)
+        /\ IF Matches(v1, Ev.obs) THEN TRUE ELSE Blk(Explain(v1, Ev.obs))
   /\ UNCHANGED rr
 
 TContra ==     \* API.IsHeaderContradictingChain probe, no state change (C07)
   /\ Ev.ev = "Contra"
   /\ LET hdr == [h |-> Ev.h, gen |-> Ev.gen, mhg |-> Ev.mhg, mhp |-> Ev.mhp] IN
-     IF (Ev.res = 1) = ContraChain(votes, hdr) THEN TRUE ELSE ~PrintT(<<"MISMATCH-CONTRA", l, ContraChain(votes, hdr)>>)
+     IF (Ev.res = 1) = ContraChain(votes, hdr) THEN TRUE ELSE Blk(PrintT(<<"MISMATCH-CONTRA", l, ContraChain(votes, hdr)>>))
   /\ UNCHANGED <<votes, rr>>
 
 THeader ==
@@ -75,7 +80,7 @@ THeader ==
          v1 == IF def THEN Apply(votes, hdr) ELSE votes
      IN /\ votes' = v1
         /\ IF (Ev.err = 1) = ~def THEN TRUE ELSE ~PrintT(<<"MISMATCH-ERR", l, def>>)
-        /\ IF Matches(v1, Ev.obs) THEN TRUE ELSE ~Explain(v1, Ev.obs)
+        /\ IF Matches(v1, Ev.obs) THEN TRUE ELSE Blk(Explain(v1, Ev.obs))
         /\ IF ~def \/ (Ev.implies = 1) = ImpliesMaxPrevotes(v1, hdr) THEN TRUE ELSE ~PrintT(<<"MISMATCH-IMPLIES", l>>)
   /\ UNCHANGED rr
 
